@@ -9,6 +9,7 @@ import FormakVerif.Model.PyModel
 import FormakVerif.Model.Runtime
 import FormakVerif.Model.Ekf
 import FormakVerif.Model.Validate
+import FormakVerif.Model.Sklearn
 open Lean FormakVerif
 
 def parseRat (s : String) : Except String Rat :=
@@ -399,6 +400,91 @@ def opAccept (j : Json) : Except String Json := do
   return okJ (Json.mkObj [("ui", acceptsUi d), ("compile", acceptsCompile d), ("ekf", acceptsEkf d),
     ("valid_ui", validUi d), ("valid_cal", validCal d), ("valid_ekf", validEkf d)])
 
+def slotsJ (l : List (String × Nat)) : Json := Json.arr (l.map fun p => Json.arr #[Json.str p.1, Json.num p.2]).toArray
+
+def opSkeleton (j : Json) : Except String Json := do
+  let d ← jModelDef (← j.getObjVal? "def")
+  let sensors ← jKw jStrList (← j.getObjVal? "sensors")
+  let sk := skeleton d sensors
+  return okJ (Json.mkObj [("state", slotsJ sk.stateSlots), ("control", slotsJ sk.controlSlots),
+    ("calibration", slotsJ sk.calibrationSlots), ("arglist", Json.arr (sk.arglist.map Json.str).toArray),
+    ("sensors", Json.arr (sk.sensorIds.map Json.str).toArray),
+    ("readings", Json.mkObj (sk.readingSlots.map fun p => (p.1, slotsJ p.2)))])
+
+/-! ### scikit-learn adapter -/
+
+/-- `transform`: state 0, covariance I; per row predict with dt = 1/10 then the sensors in key order -/
+def opTransform (j : Json) : Except String Json := do
+  let d ← jEkfDef (← j.getObjVal? "ekf")
+  let cal ← jKw jRat (← j.getObjVal? "cal")
+  let rows ← jList (jList jRat) (← j.getObjVal? "X")
+  let keys := layout (d.sensors.map (·.key))
+  let sensors ← keys.mapM fun k => opt "sensor" (d.sensor k)
+  let sizes := sensors.map fun s => s.Lr.length
+  let mut st : List (String × Rat) := d.Ls.map fun n => (n, 0)
+  let mut P : QMat d.n d.n := QMat.one
+  let mut out : Array Json := #[]
+  for row in rows do
+    let (ctl, parts) := sliceRow d.c sizes row
+    let p : Point := { cal := cal, dt := 1 / 10, state := st, control := d.Lc.zip ctl }
+    let (x', P') ← doPredict d p P
+    st := d.Ls.zip x'
+    P := P'
+    let mut nisRow : Array Json := #[]
+    for (s, zvals) in sensors.zip parts do
+      let p2 : Point := { cal := cal, dt := 1 / 10, state := st, control := [] }
+      let (o, nisv) ← doUpdate d s p2 P (s.Lr.zip zvals)
+      st := (List.finRange d.n).map fun i => (d.Ls.getD i.val "", o.state i)
+      P := o.cov
+      nisRow := nisRow.push (Json.mkObj [("nis", Json.str (ratStr nisv)), ("rejected", o.rejected)])
+    out := out.push (Json.arr nisRow)
+  return okJ (Json.arr out)
+
+def jNoises (j : Json) : Except String Noises := do
+  return { process := ← jKw jRat (← j.getObjVal? "process"), sensors := ← jKw (jKw jRat) (← j.getObjVal? "sensors") }
+
+def noisesJ (nz : Noises) : Json :=
+  Json.mkObj [("process", Json.arr (nz.process.map fun p => Json.arr #[Json.str p.1, Json.str (ratStr p.2)]).toArray),
+    ("sensors", Json.arr (nz.sensors.map fun s => Json.arr #[Json.str s.1,
+        Json.arr (s.2.map fun p => Json.arr #[Json.str p.1, Json.str (ratStr p.2)]).toArray]).toArray)]
+
+def opFlatten (j : Json) : Except String Json := do
+  let controls ← jStrList (← j.getObjVal? "controls")
+  let nz ← jNoises (← j.getObjVal? "noises")
+  return okJ (Json.arr ((flattenNoises controls nz).map fun q => Json.str (ratStr q)).toArray)
+
+def opInverse (j : Json) : Except String Json := do
+  let controls ← jStrList (← j.getObjVal? "controls")
+  let nz ← jNoises (← j.getObjVal? "noises")
+  let v ← jList jRat (← j.getObjVal? "vector")
+  return okJ (noisesJ (inverseNoises controls nz v))
+
+/-- `set_params` on a record of opaque values (strings) -/
+def opSetParams (j : Json) : Except String Json := do
+  let g (k : String) : Except String String := do (← j.getObjVal? k).getStr?
+  let c (k : String) : Except String String := do (← (← j.getObjVal? "config").getObjVal? k).getStr?
+  let sm ← g "symbolic_model"
+  let pn ← g "process_noise"
+  let se ← g "sensor_models"
+  let sn ← g "sensor_noises"
+  let cm ← g "calibration_map"
+  let c1 ← c "common_subexpression_elimination"
+  let c2 ← c "python_modules"
+  let c3 ← c "extra_validation"
+  let c4 ← c "max_dt_sec"
+  let c5 ← c "innovation_filtering"
+  let cfg : Cfg String := ⟨c1, c2, c3, c4, c5⟩
+  let p : Params String := ⟨sm, pn, se, sn, cm, cfg⟩
+  let sets ← jKw (fun v => v.getStr?) (← j.getObjVal? "set")
+  match p.setMany (sets.map fun kv => (kv.1, ParamVal.val kv.2)) with
+  | .error (.invalidKey k) => return errJ s!"invalid-key {k}"
+  | .error (.typeMismatch k) => return errJ s!"type {k}"
+  | .ok q => return okJ (Json.mkObj [("symbolic_model", q.symbolic_model), ("process_noise", q.process_noise),
+      ("sensor_models", q.sensor_models), ("sensor_noises", q.sensor_noises), ("calibration_map", q.calibration_map),
+      ("config", Json.mkObj [("common_subexpression_elimination", q.config.common_subexpression_elimination),
+        ("python_modules", q.config.python_modules), ("extra_validation", q.config.extra_validation),
+        ("max_dt_sec", q.config.max_dt_sec), ("innovation_filtering", q.config.innovation_filtering)])])
+
 def dispatch (j : Json) : Except String Json := do
   let op ← (← j.getObjVal? "op").getStr?
   match op with
@@ -415,6 +501,11 @@ def dispatch (j : Json) : Except String Json := do
   | "update" => opUpdate j
   | "decide" => opDecide j
   | "accept" => opAccept j
+  | "skeleton" => opSkeleton j
+  | "transform" => opTransform j
+  | "flatten" => opFlatten j
+  | "inverse" => opInverse j
+  | "setparams" => opSetParams j
   | "ping" => return okJ (Json.str "pong")
   | o => .error s!"unknown op {o}"
 
